@@ -1,0 +1,43 @@
+//go:build verif
+
+package coordinator
+
+import (
+	"time"
+
+	"github.com/openGemini/openGemini/engine/hybridqp"
+	"github.com/openGemini/openGemini/lib/config"
+	"github.com/openGemini/openGemini/lib/errno"
+	"github.com/openGemini/openGemini/lib/logger"
+	"github.com/openGemini/openGemini/lib/util/lifted/influx/influxql"
+	"github.com/openGemini/openGemini/lib/util/lifted/influx/query"
+)
+
+// VerifC11MapMstShardsHint runs ClusterShardMapper.mapMstShards for one measurement with the select options of a hinted
+// query (hint 1 = full_series, 2 = specific_series, anything else = no hint) and returns the ids of the shards the query
+// layer would consult. Thin wrapper, no behaviour.
+func VerifC11MapMstShardsHint(rm VerifC11ReadMeta, database, retentionPolicy, mst string, tmin, tmax time.Time, condition influxql.Expr, hint int) ([]uint64, error) {
+	csm := &ClusterShardMapper{Logger: logger.NewLogger(errno.ModuleCoordinator)}
+	csm.MetaClient = &verifC11ReadAdapter{rm: rm}
+	src := &influxql.Measurement{Database: database, RetentionPolicy: retentionPolicy, Name: mst, EngineType: config.TSSTORE}
+	csming := NewClusterShardMapping(csm, tmin, tmax)
+	opt := &query.SelectOptions{}
+	switch hint {
+	case 1:
+		opt.HintType = hybridqp.FullSeriesQuery
+	case 2:
+		opt.HintType = hybridqp.SpecificSeriesQuery
+	}
+	if err := csm.mapMstShards(src, csming, tmin, tmax, condition, opt); err != nil {
+		return nil, err
+	}
+	var ids []uint64
+	for _, byPt := range csming.ShardMap {
+		for _, shs := range byPt {
+			for _, sh := range shs {
+				ids = append(ids, sh.ID)
+			}
+		}
+	}
+	return ids, nil
+}
